@@ -27,6 +27,17 @@ structure Cfg where
   emptyFeedsWrap : Bool
   strictLess : Bool
   namesDistinct : Bool      -- the two front ends use two different `name`s, each clearing its own
+  /-- `disk_io_counters(perdisk=True)` passes its own `name` (≠ the one of the system-wide form) -/
+  formsSeparate : Bool := false
+  /-- `disk_io_counters.cache_clear()` also clears the per-disk `name` -/
+  clearPer : Bool := false
+  /-- Linux: the front end forwards `perdisk` and the platform layer leaves out every device that
+      is not a whole disk when `perdisk=False` -/
+  linuxFilter : Bool := true
+  /-- `wrap_numbers` calls `_wn.run` inside `with _wn.lock` (and nothing else calls `run`) -/
+  lockedRun : Bool := true
+  /-- the bodies of `cache_clear` / `cache_info` are entirely inside `with self.lock` -/
+  lockedClear : Bool := true
 
 def wrapped (cfg : Cfg) (new old : Nat) : Bool :=
   if cfg.strictLess then decide (new < old) else decide (new ≤ old)
@@ -59,7 +70,9 @@ def run (cfg : Cfg) (wn : WN) (input : Raw) : WN × Raw :=
     let rem' := remAfter cfg old input wn.rem
     (⟨some input, rem'⟩, outOf old input rem')
 
-inductive Name | disk | net
+/-- cache slot = the `name` handed to `wrap_numbers`. `diskPer` is the separate slot of
+    `disk_io_counters(perdisk=True)`; it is used only when `Cfg.formsSeparate` (see Model/C10Front). -/
+inductive Name | disk | net | diskPer
   deriving DecidableEq, Repr
 
 inductive Op
@@ -68,26 +81,31 @@ inductive Op
   | clearAll                     -- _common.wrap_numbers.cache_clear() (internal)
 
 inductive Out
-  | none                         -- `None` / `{}`: nothing listed
+  | none                         -- `{}` (per-device form; at the level of `step`: nothing listed)
   | dict (r : Raw)
   | indexError
   | unit
+  | nil                          -- `None` (system-wide form, nothing listed) — produced by Model/C10Front
+  | total (fields : List Nat)    -- system-wide namedtuple — produced by Model/C10Front
   deriving DecidableEq, Repr
 
 structure St where
   disk : WN
   net : WN
+  diskPer : WN
 
-def St.init : St := ⟨WN.init, WN.init⟩
+def St.init : St := ⟨WN.init, WN.init, WN.init⟩
 
 def St.get (s : St) : Name → WN
   | .disk => s.disk
   | .net => s.net
+  | .diskPer => s.diskPer
 
 def St.set (s : St) (n : Name) (w : WN) : St :=
   match n with
   | .disk => { s with disk := w }
   | .net => { s with net := w }
+  | .diskPer => { s with diskPer := w }
 
 /-- which cache slot a front end really uses: with `namesDistinct = false` both share one -/
 def slot (cfg : Cfg) (n : Name) : Name := if cfg.namesDistinct then n else .disk
